@@ -240,6 +240,19 @@ CHECKS = {
    technique=TECH + "Python AST symbolic execution over z3 strings with a ghost file system (event trace) -> per-path guarantee "
              "obligations -> z3; rely/guarantee invariant lemma; replay with a scripted compiler and real processes",
    design="DESIGN.md 6 C18"),
+ "C19": dict(engine="pyvc",
+   text="SesansTransform._set_hankel and .apply are executed symbolically with the 2-D array model (1-2 spin-echo lengths enumerated, "
+        "calculated q grid of symbolic length): q_calc[j] = exp(log q_min + j log 1.0003) with the documented q_min/q_max, positive "
+        "and increasing, always at least two points; H0[j] = q_j dq_j/2pi; H[j,k] = accept(j,k) J0(q_j xi_k) q_j dq_j/2pi where accept "
+        "is false exactly for unreachable q (q lambda/2pi outside [-1,1], numpy NaN) or arcsin(q lambda/2pi) > zaccept; apply(I)[k] = "
+        "sum_j H[j,k] I_j - sum_j H0[j] I_j, i.e. the Riemann sum of (1/2pi) int [accept J0(q xi) - 1] I q dq; linearity by the Lean "
+        "lemma apply_linear; no background is added for SESANS data (DataMixin._calc_theory, the C10 obligations).",
+   note="J0/exp/log/arcsin uninterpreted (exp positivity and monotonicity instantiated); reals; the acceptance mask applies to the "
+        "J0 term only (as documented in the code); accuracy of the Riemann sum (Gaussian pair within 5e-3 of the peak), linearity on "
+        "the real code and single-point consistency are bounded runs",
+   technique=TECH + "Python AST symbolic execution with 2-D array model (one concrete dimension, NaN-aware comparisons) -> elementwise VCs "
+             "-> z3; replay on the real transform with unreachable q and finite acceptance",
+   design="DESIGN.md 6 C19"),
  "C20": dict(engine="pyvc",
    text="convert_model and its 12 helpers are executed symbolically once per table entry and naming scheme with a finite-map "
         "input whose keys carry symbolic presence bits and symbolic values (state merging), so one run covers every subset "
